@@ -17,7 +17,7 @@ CLAIMED = {
  'C03': ('proof', 'Every path of every *low cascade releases the tabulated level energy (nominal accounting defined by the L1/L2 emission contracts) within 3 keV: one CBMC query per routine over all deviates and all tabulated levels. decay0_bb under contract (contracts/bb.contract): for every legacy mode the emitted energies are computed from the budget e0 = Q - Elevel [- 4me | - EK - 2me | - 2EK] and the window [ebb1, ebb2] in the shape that the IEEE lemmas W0/W2/W9/W10/W11/W20 turn into the budget/window inequality.', '3 C03',
          'nominal vs booked energy gap bounded per call by the L2 lemmas; lemmas W2, W20 thorough-tier only (assumed otherwise); momentum -> kinetic energy is a real-arithmetic lemma (assumed); toallevents >= 1 / monotone in the window is NOT claimed (property of the numerical integrators)'),
  'C04': ('proof', 'For all deviates: every call-site precondition of every emission primitive holds in all 123 L3 routines (energies >= 0 and above thresholds, finite times), >= 1 and <= 60 particles per routine, decay time >= creation time, no exception, every cycle consumes a deviate.', '3 C04',
-         'time order rests on the leaf contract; bounded number of deviates is almost-sure only and not claimed; genbbsub level facts pending'),
+         'also: the exit clauses of the decay0_bb contract (2, 3 or 4 particles of the right species, prompt isotropic emission calls) for every legacy mode; time order rests on the leaf contract; bounded number of deviates is almost-sure only and not claimed'),
  'C07': ('proof', 'Hidden state and frame: DFCC assigns obligations on the L0-L2 kernels (nothing but the event, out-parameters and ghost state is written); for every isotope and all int levels/modes, genbbsub initialisation of two arbitrary different parameter blocks ends in the same state (no field left over from an earlier configuration is read); AST frame scan of every rendered function (assignment targets, write-once statics).', '3 C07',
          'pointer/reference into the particle vector across an emission is claimed under C08; other instances, reset/re-init, shoot() are porcelain (not covered); the AST scan is a static fact, not a CBMC obligation'),
  'C08': ('proof', 'CBMC bounds/pointer/overflow/conversion/division checks on every rendered L3 routine body for all deviates, with std::vector modelled as "any push_back may reallocate" so that a pointer kept across an emission is a failed obligation; decay0_bb under contract: every spthe1/spthe2 index inside the 4300-entry tables and every double->int conversion defined, for every mode, window and deviate sequence (loop invariants, no unwinding).', '3 C08',
